@@ -66,6 +66,10 @@ def _prepare(tier):
 
     c = _CFG[tier]
     sigs = S.signatures(c["names"], c["max_params"], c["defaults"])
+    if tier == "quick":
+        # three parameters at once (what needs three of a kind, or a first, a middle and a last one): those without defaults and those where every one has the same default
+        seen_sigs = set(sigs)
+        sigs = sigs + [s for s in S.signatures(c["names"], 3, (None, "0")) if len(s) == 3 and len({d for _n, k, d in s if k not in ("va", "vk")}) <= 1 and s not in seen_sigs]
     shapes = S.call_shapes(c["names"], c["max_pos"])
     masks = [S.accept_mask(s, shapes) for s in sigs]
     # alpha-renaming by seed: verdicts must not depend on the identifiers chosen
